@@ -748,6 +748,30 @@ theorem eventlog_newest_first (log : List Event) (e : Event) :
     getEvents (addEvent log e) = encode e ++ getEvents (log.take 63) := by
   simp [addEvent, getEvents, List.take_succ_cons]
 
+/-- model event for a row of the generated table -/
+def eventOfRow (k : String) (f : List Nat) : Option Event :=
+  let g := fun i => f.getD i 0 != 0
+  if k = "recv" then some (.recv (g 0) (g 1) (g 2))
+  else if k = "send" then some (.send (g 0) (g 1) (g 2) (g 3) (g 4) (g 5))
+  else if k = "listen" then some .listenMode
+  else if k = "restart" then some .restart
+  else none
+
+/-- a row of OBSERVED encodes agrees with the model; for `RemoteReceiveEvent` the specification's byte
+    (a repaired encoder) is admitted as well -/
+def eventRowOk (row : String × List Nat × List Nat) : Bool :=
+  match eventOfRow row.1 row.2.1 with
+  | none => false
+  | some (.recv o l b) => row.2.2 == encode (.recv o l b) || row.2.2 == [specRecvByte o l b]
+  | some e => row.2.2 == encode e
+
+/-- Translator tie: the table of event bytes regenerated from the imported classes on every run
+    (all 74 flag combinations) is what `Events.encode` says, and the observed cap of the event log
+    is the 64 of `Events.addEvent`. -/
+theorem generated_event_table :
+    Generated.eventEncodeTable.length = 74 ∧ Generated.eventEncodeTable.all eventRowOk = true ∧
+    Generated.eventLogCap = 64 := by decide +kernel
+
 end Events
 
 /-- Non-vacuity of the hypotheses. -/
